@@ -5,6 +5,7 @@ import Mathlib.Tactic.Ring
 import Np.Proofs.DivTerm
 import Np.Proofs.DivArr
 import Np.Proofs.DivExact
+import Np.Proofs.DivArrExact
 /-! C05 — polynomial division: the division identity is an invariant of every reduction step, the loop stops only
 when no term of the remainder is reducible, zero and constant divisors, termination, exact multiples, degrees -/
 namespace Np.Props.C05
@@ -216,6 +217,45 @@ theorem divmod_array_zero_divisor (fuel : Nat) (a b : Arr K) (ha : a.WF) (hb : b
       ∀ i : Fin (size s), b.elem (σb i) = 0 →
         ∃ r, elems[i.val]? = some (some ([], r)) ∧ denT names r = a.elem (σa i) ∧ ∀ t ∈ r, t.2 ≠ 0 :=
   divmodArr_zero_divisor fuel a b ha hb s names elems h
+/-! ### the three consequences on arrays (`Np/Proofs/DivArrExact.lean`): `poly_divmod(a, b)` with broadcasting -/
+/-- **exact multiples on arrays**: wherever the broadcast dividend element is `g · divisor element` (divisor element
+non-zero) the remainder there is the empty term list and the quotient is `g`, term by term -/
+theorem divmod_array_exact_multiple (fuel : Nat) (a b : Arr K) (ha : a.WF) (hb : b.WF) (s : List Nat)
+    (names : List Name) (elems : List (Option (List (Expo × K) × List (Expo × K))))
+    (h : divmodArr fuel a b = .ok (s, names, elems)) :
+    ∃ (σa : Fin (size s) → Fin (size a.shape)) (σb : Fin (size s) → Fin (size b.shape)),
+      (∀ i, (σa i).val = bindex a.shape s i.val) ∧ (∀ i, (σb i).val = bindex b.shape s i.val) ∧
+      ∀ (i : Fin (size s)) (q r : List (Expo × K)), elems[i.val]? = some (some (q, r)) →
+        ∀ g : MvPolynomial Name K, a.elem (σa i) = g * b.elem (σb i) → b.elem (σb i) ≠ 0 →
+          r = [] ∧ denT names r = 0 ∧ denT names q = g ∧
+          ∀ t ∈ q, coeff (fsN names t.1) g = t.2 ∧ t.2 ≠ 0 :=
+  divmodArr_exact_multiple fuel a b ha hb s names elems h
+
+/-- **constant divisor elements**: remainder empty, quotient = element / c -/
+theorem divmod_array_constant_divisor (fuel : Nat) (a b : Arr K) (ha : a.WF) (hb : b.WF) (s : List Nat)
+    (names : List Name) (elems : List (Option (List (Expo × K) × List (Expo × K))))
+    (h : divmodArr fuel a b = .ok (s, names, elems)) :
+    ∃ (σa : Fin (size s) → Fin (size a.shape)) (σb : Fin (size s) → Fin (size b.shape)),
+      (∀ i, (σa i).val = bindex a.shape s i.val) ∧ (∀ i, (σb i).val = bindex b.shape s i.val) ∧
+      ∀ (i : Fin (size s)) (q r : List (Expo × K)), elems[i.val]? = some (some (q, r)) →
+        ∀ c : K, c ≠ 0 → b.elem (σb i) = C c →
+          r = [] ∧ denT names r = 0 ∧ denT names q = C c⁻¹ * a.elem (σa i) :=
+  divmodArr_constant_divisor fuel a b ha hb s names elems h
+
+/-- **one indeterminate**: at every position with a non-zero divisor element, `deg r < deg divisor` -/
+theorem divmod_array_univariate (fuel : Nat) (a b : Arr K) (ha : a.WF) (hb : b.WF) (s : List Nat)
+    (names : List Name) (elems : List (Option (List (Expo × K) × List (Expo × K))))
+    (h : divmodArr fuel a b = .ok (s, names, elems)) (h1 : names.length = 1) :
+    ∃ x, names = [x] ∧
+    ∃ (σa : Fin (size s) → Fin (size a.shape)) (σb : Fin (size s) → Fin (size b.shape)),
+      (∀ i, (σa i).val = bindex a.shape s i.val) ∧ (∀ i, (σb i).val = bindex b.shape s i.val) ∧
+      ∀ (i : Fin (size s)) (q r : List (Expo × K)), elems[i.val]? = some (some (q, r)) →
+        b.elem (σb i) ≠ 0 →
+        ∃ l : Nat, (∀ m, coeff m (b.elem (σb i)) ≠ 0 → m x ≤ l) ∧
+          coeff (Finsupp.single x l) (b.elem (σb i)) ≠ 0 ∧
+          l = degreeOf x (b.elem (σb i)) ∧
+          ∀ m, coeff m (denT names r) ≠ 0 → m x < l :=
+  divmodArr_univariate fuel a b ha hb s names elems h h1
 end arrays
 
 /-- non-vacuity: (q0³ + q1³ + 1) / (q0 + q1) = q1² − q0 q1 + q0², remainder 1, within 3 steps;
